@@ -18,10 +18,75 @@ from typing import Any, Callable
 from common import VERIF, err_name, line, run_model
 
 
+# ---- stall guard: a call into the library that does not come back (a pattern that backtracks for ever, a loop) must end
+# as a failing input, not as a check that never finishes.  Every note / check / case is a tick; an interval timer looks
+# whether there was a tick since its last look and, when there was none, raises StallError inside the call that hangs
+# (CPython's regex engine and bytecode loop both honour signals).  Suspended while the harness itself waits (driver run).
+_progress = [0]
+_suspended = [0]
+
+
+class StallError(Exception):
+    pass
+
+
+class StallAbort(BaseException):
+    """after a few stalls the search stops: what it found so far is the result"""
+
+
+_stalls = [0]
+_current_sweep = [None]
+MAX_STALLS = 3
+
+
+def tick():
+    _progress[0] += 1
+
+
+def install_stall_guard(seconds: float = 60.0):
+    import signal
+    import threading
+    if threading.current_thread() is not threading.main_thread():
+        return
+    last = [-1]
+
+    def handler(signum, frame):
+        if _suspended[0]:
+            last[0] = -1
+            return
+        if _progress[0] == last[0]:
+            last[0] = -1
+            _stalls[0] += 1
+            if _stalls[0] > MAX_STALLS:
+                raise StallAbort(f"{_stalls[0]} calls into the library did not return within {seconds:.0f} s each")
+            raise StallError(f"a call into the library did not return within {seconds:.0f} s")
+        last[0] = _progress[0]
+
+    signal.signal(signal.SIGALRM, handler)
+    signal.setitimer(signal.ITIMER_REAL, seconds, seconds)
+
+
+def remove_stall_guard():
+    import signal
+    try:
+        signal.setitimer(signal.ITIMER_REAL, 0)
+    except Exception:  # noqa: BLE001
+        pass
+
+
+class suspended_guard:
+    def __enter__(self):
+        _suspended[0] += 1
+
+    def __exit__(self, *a):
+        _suspended[0] -= 1
+        tick()
+
+
 def outcome(fn: Callable[[], str]) -> str:
     try:
         return fn()
-    except RecursionError:
+    except (RecursionError, StallAbort):
         raise
     except BaseException as e:  # noqa: BLE001 - the kind of exception *is* the outcome
         return "err:" + err_name(e)
@@ -40,6 +105,7 @@ class Cases:
 
     def add(self, op: str, args: list[str], pyfn: Callable[[], str], desc: Any = None):
         self.lines.append(line(op, *args))
+        tick()
         e = outcome(pyfn)
         self.exp.append(e)
         self.desc.append(desc if desc is not None else [op, *args])
@@ -51,7 +117,8 @@ class Cases:
 
     def run(self) -> list[dict]:
         """returns the disagreements"""
-        out = run_model(self.lines)
+        with suspended_guard():
+            out = run_model(self.lines)
         bad = []
         from common import MODEL_CRASH
         self.model_crashes = sum(1 for o in out if o == MODEL_CRASH)
@@ -77,6 +144,7 @@ class Sweep:
 
     def __init__(self, prop: str):
         self.prop = prop
+        _current_sweep[0] = self
         self.evaluations = 0
         self.seen: set[str] = set()
         self.violations: list[dict] = []
@@ -85,6 +153,7 @@ class Sweep:
         self._per_key = collections.Counter()
 
     def note(self, key: Any, branch: str | None = None):
+        tick()
         self.evaluations += 1
         k = json.dumps(key, sort_keys=True, default=str)
         if k not in self.seen:
@@ -96,6 +165,7 @@ class Sweep:
 
     def check(self, ok: bool, what: str, case: dict, expected: Any = None, actual: Any = None, snippet: str | None = None):
         """record a violation when `ok` is false"""
+        tick()
         if ok:
             return True
         # keep up to 60 records per (what, clause, kind) so that one frequent failure class cannot
